@@ -1,6 +1,275 @@
-(* C15 -- placeholder while the proofs are being written *)
-From LR Require Import lib.Base model.CList model.Provider.
+(* C15 -- Server-side query cursors: one user at a time, resources released exactly once.
+   Property theorems only. The model is model/Provider.v (cursor.Provider over the pointer ring of
+   model/CList.v); histories are lists of atomic steps of concurrent requests (actors), the
+   sweeper and the clock, so "for all histories and schedules" is "for all `ops : list op`".
+   Where the faithful model violates the full statement the file has the statement as a
+   Definition, a `_refuted` witness (replayed on the implementation by the harness corpus) and a
+   `_partial` theorem under the client discipline `disciplined` (model/Provider.v: an id that is
+   in flight is requested again only while its cursor sits in the cache marked busy). *)
+From LR Require Import lib.Base model.CList model.Provider proofs.CListP proofs.ProviderP.
 
-Theorem C15_placeholder : True.
-Proof. exact I. Qed.
-Print Assumptions C15_placeholder.
+Definition final (max : nat) (idle busyto : Z) (ops : list op) : prov := fst (fst (run (init max idle busyto) ops)).
+Definition outcome_of (max : nat) (idle busyto : Z) (ops : list op) : outcome unit := snd (run (init max idle busyto) ops).
+
+(* ------------------------------------------------------------------ the ring refines a list *)
+(* TearOff of a member: the ring now stands for the list without it, the element is detached, nothing else is written *)
+Theorem C15_ring_tearoff : forall h hd l e, ring h (Some hd) l -> In e l ->
+  exists h' p', cl_tearoff h (Some hd) (Some e) = (h', p') /\
+    ring h' p' (remove Nat.eq_dec e l) /\ self_linked h' e /\ (forall x, ~ In x l -> h' x = h x).
+Proof. exact tearoff_spec. Qed.
+Print Assumptions C15_ring_tearoff.
+
+(* Append of a detached element in front of a ring (e.Append(head)): cons *)
+Theorem C15_ring_append : forall h p l e, self_linked h e -> ring h p l -> ~ In e l ->
+  exists h', cl_append h (Some e) p = (h', Some e) /\ ring h' (Some e) (e :: l) /\
+    (forall x, x <> e -> ~ In x l -> h' x = h x).
+Proof. exact append_spec. Qed.
+Print Assumptions C15_ring_append.
+
+(* following next from the head reads the list back; Len is its length; Prev and Next (sic) of a member stay inside *)
+Theorem C15_ring_reads : forall h p l n, ring h p l -> length l <= n ->
+  cl_to_list n h p = l /\ cl_len n h p = Some (length l) /\
+  (forall hd e, p = Some hd -> In e l -> In (cl_prev_of h e) l /\ In (cl_next_of h e) l).
+Proof.
+  intros h p l n R Hn. split; [exact (ring_to_list h p l n R Hn)|]. split; [exact (ring_len h p l n R Hn)|].
+  intros hd e -> I. split; exact (proj1 (ring_prev_in h hd l e R I)).
+Qed.
+Print Assumptions C15_ring_reads.
+
+(* ------------------------------------------------------------------ no panic *)
+Definition C15_no_panic_statement : Prop :=
+  forall max idle busyto ops, outcome_of max idle busyto ops = Ok tt.
+
+Definition race_ops : list op :=
+  [OLookup 0 5 true 0 (QParts [0%N]) PHead 100; OLookup 1 5 true 0 (QParts [0%N]) PHead 101;
+   OCreate 0; OInsert 0; OCreate 1; OInsert 1].
+
+(* two requests name the same uncached id, both miss before either inserts: the second's Release panics *)
+Theorem C15_no_panic_refuted : exists max idle busyto ops, outcome_of max idle busyto ops = Panic.
+Proof. exists 10, 3%Z, 7%Z, (race_ops ++ [ORelease 0; ORelease 1]). vm_compute. reflexivity. Qed.
+Print Assumptions C15_no_panic_refuted.
+
+(* a request outlives busyTo, the client retries with the same id, the late Release of the first ... *)
+Theorem C15_no_panic_busy_expiry_refuted : exists max idle busyto ops, outcome_of max idle busyto ops = Panic.
+Proof.
+  exists 10, 3%Z, 7%Z,
+    [OLookup 0 5 true 0 (QParts [0%N]) PHead 100; OCreate 0; OInsert 0; OTick 8; OSweepTime;
+     OLookup 1 5 true 0 (QParts [0%N]) PHead 101; OCreate 1; OInsert 1; ORelease 0; ORelease 1].
+  vm_compute. reflexivity.
+Qed.
+Print Assumptions C15_no_panic_busy_expiry_refuted.
+
+(* under the discipline no step of any history panics or loops: not Release, not a nil dereference in the sweeps *)
+Theorem C15_no_panic_partial : forall max idle busyto ops,
+  disciplined (init max idle busyto) ops = true ->
+  outcome_of max idle busyto ops = Ok tt /\ length (snd (fst (run (init max idle busyto) ops))) = length ops.
+Proof.
+  intros max idle busyto ops D. destruct (inv_run ops _ (inv_init max idle busyto) D) as (H1 & _ & H3). split; assumption.
+Qed.
+Print Assumptions C15_no_panic_partial.
+
+(* ------------------------------------------------------------------ one user at a time *)
+Definition C15_exclusive_statement : Prop :=
+  forall max idle busyto ops r r' c,
+    act_get (p_act (final max idle busyto ops)) r = AHold c ->
+    act_get (p_act (final max idle busyto ops)) r' = AHold c -> r = r'.
+
+(* after the race the first Release marks the second request's holder idle: a third request is handed the
+   cursor the second request is still reading from *)
+Theorem C15_exclusive_refuted : exists max idle busyto ops c,
+  act_get (p_act (final max idle busyto ops)) 1 = AHold c /\ act_get (p_act (final max idle busyto ops)) 2 = AHold c.
+Proof.
+  exists 10, 3%Z, 7%Z, (race_ops ++ [ORelease 0; OLookup 2 5 true 0 (QParts [0%N]) (PAt 0) 102]), 1.
+  vm_compute. split; reflexivity.
+Qed.
+Print Assumptions C15_exclusive_refuted.
+
+(* unconditionally: a request for an id whose cached cursor is marked busy is refused and changes nothing;
+   a cursor is handed out of the cache only if it was marked idle *)
+Theorem C15_refuse_busy : forall s r id cache q qr p fresh e,
+  act_get (p_act s) r = AIdle -> id <> 0%N -> map_get (p_curs s) id = Some e -> h_busy (p_vals s e) = true ->
+  get_lookup s r id cache q qr p fresh = Ok (s, RRefused).
+Proof. exact refuse_busy. Qed.
+Print Assumptions C15_refuse_busy.
+
+Theorem C15_hit_only_idle : forall s r id cache q qr p fresh s' c,
+  get_lookup s r id cache q qr p fresh = Ok (s', RHit c) ->
+  exists e, map_get (p_curs s) id = Some e /\ h_busy (p_vals s e) = false /\ h_cur (p_vals s e) = Some c.
+Proof. exact hit_only_idle. Qed.
+Print Assumptions C15_hit_only_idle.
+
+(* under the discipline: no cursor is ever in the hands of two requests, a cursor in use is open, and if it is
+   in the cache it is marked busy there (so every further request for its id is refused, by C15_refuse_busy) *)
+Theorem C15_exclusive_partial : forall max idle busyto ops, disciplined (init max idle busyto) ops = true ->
+  let s := final max idle busyto ops in
+  (forall r r' c, (act_get (p_act s) r = AHold c \/ act_get (p_act s) r = ACreated c) ->
+                  (act_get (p_act s) r' = AHold c \/ act_get (p_act s) r' = ACreated c) -> r = r') /\
+  (forall r c, act_get (p_act s) r = AHold c -> c < p_ncur s /\ c_live (p_cur s c) = true) /\
+  (forall r c e, act_get (p_act s) r = AHold c -> map_get (p_curs s) (c_id (p_cur s c)) = Some e ->
+                 h_busy (p_vals s e) = true /\ h_cur (p_vals s e) = Some c).
+Proof.
+  intros max idle busyto ops D s. destruct (inv_run ops _ (inv_init max idle busyto) D) as (_ & HI & _).
+  fold (final max idle busyto ops) in HI. fold s in HI.
+  split; [exact (inv_exclusive s HI)|]. split; [|exact (inv_held_busy s HI)].
+  intros r c H. assert (R : reachable s c) by (left; exists r; right; exact H).
+  destruct HI as (lb & lf & HL). pose proof HL as (_ & _ & (A1 & _) & _). apply (A1 r c). right. exact H.
+Qed.
+Print Assumptions C15_exclusive_partial.
+
+(* ------------------------------------------------------------------ released exactly once *)
+(* a cursor's partitions are released at most once, and exactly once when nothing refers to it any more *)
+Definition C15_once_statement : Prop :=
+  forall max idle busyto ops, let s := final max idle busyto ops in
+  forall c, c < p_ncur s -> c_rels (p_cur s c) <= 1 /\ (~ reachable s c -> c_rels (p_cur s c) = 1).
+
+(* "at most once" holds for every history and schedule *)
+Theorem C15_release_at_most_once : forall max idle busyto ops c,
+  c_rels (p_cur (final max idle busyto ops) c) <= 1 /\
+  (c_live (p_cur (final max idle busyto ops) c) = true -> c_rels (p_cur (final max idle busyto ops) c) = 0).
+Proof.
+  intros max idle busyto ops c. destruct (Jc_run ops _ (Jc_init max idle busyto) c) as [H1 H2]. split; assumption.
+Qed.
+Print Assumptions C15_release_at_most_once.
+
+Definition leak_ops : list op :=
+  [OLookup 0 5 true 0 (QParts [0%N; 1%N]) PHead 100; OLookup 1 5 true 0 (QParts [0%N; 1%N]) PHead 101;
+   OCreate 0; OInsert 0; ORelease 0; OCreate 1; OInsert 1; ORelease 1; OTick 20; OSweepTime; OSweepTime].
+
+(* the race again, both requests complete normally: no request is left, the cache map is empty, every sweep
+   has run -- and the second cursor is never closed, its partitions stay acquired for ever *)
+Theorem C15_once_refuted : exists max idle busyto ops c,
+  let s := final max idle busyto ops in
+  c < p_ncur s /\ ~ reachable s c /\ c_rels (p_cur s c) = 0 /\ p_act s = [] /\ p_curs s = [] /\ p_acq s 0%N = 1%Z.
+Proof.
+  exists 10, 3%Z, 7%Z, leak_ops, 1. cbn zeta.
+  assert (E : p_act (final 10 3 7 leak_ops) = [] /\ p_curs (final 10 3 7 leak_ops) = []) by (vm_compute; split; reflexivity).
+  destruct E as [Ea Ec].
+  split; [vm_compute; lia|]. split.
+  - intros [(r & [H|H])|(k & e & H & _)]; [rewrite Ea in H; discriminate|rewrite Ea in H; discriminate|rewrite Ec in H; discriminate].
+  - split; [vm_compute; reflexivity|]. split; [exact Ea|]. split; [exact Ec|vm_compute; reflexivity].
+Qed.
+Print Assumptions C15_once_refuted.
+
+(* under the discipline, in every reachable state and for every cursor ever created: it is open, never closed,
+   as long as a request or the cache refers to it, and closed -- close() called once, partitions released once --
+   as soon as nothing does (uncached release, idle expiry, busy expiry followed by the release, eviction by
+   size, the fallback after a failed ApplyState); the factory's books are exactly the open cursors *)
+Theorem C15_once_partial : forall max idle busyto ops, disciplined (init max idle busyto) ops = true ->
+  let s := final max idle busyto ops in
+  (forall c, c < p_ncur s ->
+     (reachable s c -> c_live (p_cur s c) = true /\ c_closes (p_cur s c) = 0 /\ c_rels (p_cur s c) = 0) /\
+     (~ reachable s c -> c_live (p_cur s c) = false /\ c_closes (p_cur s c) = 1 /\ c_rels (p_cur s c) = 1)) /\
+  (forall p, p_acq s p = live_sum (p_cur s) (p_ncur s) p).
+Proof.
+  intros max idle busyto ops D s. destruct (inv_run ops _ (inv_init max idle busyto) D) as (_ & HI & _).
+  split; [exact (inv_once _ HI)|exact (inv_acq _ HI)].
+Qed.
+Print Assumptions C15_once_partial.
+
+(* ... so cursors never pin partitions for ever: once no request is in flight and the clock has passed the
+   time-outs, ONE pass of sweepByTime (Next() returning prev notwithstanding) empties the cache, every cursor
+   ever created has been closed exactly once and no partition is acquired *)
+Theorem C15_no_leak_partial : forall max idle busyto ops d, disciplined (init max idle busyto) ops = true ->
+  let s := final max idle busyto ops in
+  p_act s = [] -> (0 <= d)%Z -> (Z.max (p_idle s) (p_busyto s) < d)%Z ->
+  exists s1 s2, step s (OTick d) = Ok (s1, RDone) /\ step s1 OSweepTime = Ok (s2, RDone) /\
+    p_curs s2 = [] /\ p_ncur s2 = p_ncur s /\
+    (forall c, c < p_ncur s2 -> c_live (p_cur s2 c) = false /\ c_closes (p_cur s2 c) = 1 /\ c_rels (p_cur s2 c) = 1) /\
+    (forall p, p_acq s2 p = 0%Z).
+Proof.
+  intros max idle busyto ops d D s Hq Hd0 Hd. destruct (inv_run ops _ (inv_init max idle busyto) D) as (_ & HI & _).
+  fold (final max idle busyto ops) in HI. fold s in HI.
+  assert (G : guard s (OTick d) = true) by (apply Z.leb_le; exact Hd0).
+  destruct (inv_step s (OTick d) HI G) as (s1 & r1 & E1 & HI1). cbn [step] in E1. injection E1 as <- <-.
+  exists (set_now s (p_now s + d)).
+  destruct (drain (set_now s (p_now s + d)) HI1 Hq) as (s2 & E2 & G1 & G2 & G3 & G4).
+  { intros k e Hk. exact (inv_all_expired s d HI Hd k e Hk). }
+  exists s2. cbn [step]. rewrite E2. cbn [lift].
+  split; [reflexivity|]. split; [reflexivity|]. split; [exact G1|]. split; [exact G2|]. split; [exact G3|exact G4].
+Qed.
+Print Assumptions C15_no_leak_partial.
+
+(* ------------------------------------------------------------------ shutdown *)
+Definition C15_shutdown_statement : Prop :=
+  forall max idle busyto ops, disciplined (init max idle busyto) ops = true ->
+  let s := final max idle busyto (ops ++ [OShutdown]) in
+  p_act s = [] -> forall c, c < p_ncur s -> c_rels (p_cur s c) = 1.
+
+(* Shutdown() only stops the sweeper: the cache is left as it is ... *)
+Theorem C15_shutdown_closes_nothing : forall s, step s OShutdown = Ok (s, RDone).
+Proof. reflexivity. Qed.
+Print Assumptions C15_shutdown_closes_nothing.
+
+(* ... so a cursor idle in the cache at shutdown is never closed *)
+Theorem C15_shutdown_refuted : exists max idle busyto ops,
+  disciplined (init max idle busyto) (ops ++ [OShutdown]) = true /\
+  let s := final max idle busyto (ops ++ [OShutdown]) in
+  p_act s = [] /\ 0 < p_ncur s /\ c_rels (p_cur s 0) = 0 /\ p_acq s 0%N = 1%Z.
+Proof.
+  exists 10, 3%Z, 7%Z, [OLookup 0 5 true 0 (QParts [0%N; 1%N]) PHead 100; OCreate 0; OInsert 0; ORelease 0].
+  vm_compute. repeat split; reflexivity || lia.
+Qed.
+Print Assumptions C15_shutdown_refuted.
+
+(* ------------------------------------------------------------------ resume *)
+(* unconditionally: a request naming an id the cache does not know (never seen, expired, evicted) is not refused:
+   the lookup misses and keeps the supplied state ... *)
+Theorem C15_resume_lookup : forall s r id cache q qr p fresh,
+  act_get (p_act s) r = AIdle -> id <> 0%N -> map_get (p_curs s) id = None ->
+  get_lookup s r id cache q qr p fresh = Ok (set_actor s r (AMiss id q qr p cache), RMiss).
+Proof. exact resume_lookup. Qed.
+Print Assumptions C15_resume_lookup.
+
+(* ... and newCursor then yields a fresh cursor (an index no earlier cursor has) with that id, at the supplied
+   position, open, its partitions acquired once *)
+Theorem C15_resume_create : forall s r id q parts p cache,
+  act_get (p_act s) r = AMiss id q (QParts parts) p cache -> p <> PBad ->
+  exists s', get_create s r = Ok (s', RNew (p_ncur s)) /\
+    p_ncur s' = S (p_ncur s) /\
+    act_get (p_act s') r = (if cache then ACreated (p_ncur s) else AHold (p_ncur s)) /\
+    let cu := p_cur s' (p_ncur s) in
+    c_id cu = id /\ c_query cu = q /\ c_spos cu = p /\ c_ipos cu = pos_init p /\ c_parts cu = parts /\
+    c_live cu = true /\ c_closes cu = 0 /\ c_rels cu = 0.
+Proof. exact resume_create. Qed.
+Print Assumptions C15_resume_create.
+
+(* ------------------------------------------------------------------ non-vacuity and the Next()-returns-prev effect *)
+(* a disciplined history that meets every life cycle: uncached release, resume with the returned position, hit,
+   refusal of a concurrent request, idle expiry, busy expiry followed by the release, eviction by size of a busy
+   and an idle cursor, fallback after a failed ApplyState; the discipline holds and the state is not trivial *)
+Definition tour : list op :=
+  [OLookup 0 1 false 0 (QParts [0%N]) PHead 100; OCreate 0; OUse 0 3; ORelease 0;
+   OLookup 0 1 true 0 (QParts [0%N]) (PAt 3) 101; OCreate 0; OInsert 0; ORelease 0;
+   OLookup 1 1 true 0 (QParts [0%N]) (PAt 3) 102; OLookup 2 1 true 0 (QParts [0%N]) (PAt 3) 103; ORelease 1;
+   OTick 4; OSweepTime;
+   OLookup 0 2 true 2 (QParts [0%N; 1%N]) PHead 104; OCreate 0; OInsert 0; OTick 8; OSweepTime; ORelease 0;
+   OLookup 0 3 true 3 (QParts [0%N; 1%N; 2%N]) PHead 105; OCreate 0; OInsert 0; ORelease 0;
+   OLookup 0 4 true 1 (QParts [1%N]) PHead 106; OCreate 0; OInsert 0;
+   OLookup 1 6 true 4 (QParts [3%N]) PHead 107; OCreate 1; OInsert 1;
+   OSweepSize;
+   OLookup 2 7 true 0 (QParts [0%N]) PHead 108; OCreate 2; OInsert 2;
+   OSweepSize; ORelease 0; ORelease 1; ORelease 2;
+   OLookup 1 6 true 0 (QParts [0%N]) PHead 109; OCreate 1; OInsert 1].
+
+Example C15_nonvacuous :
+  disciplined (init 2 3 7) tour = true /\
+  outcome_of 2 3 7 tour = Ok tt /\
+  p_ncur (final 2 3 7 tour) = 8 /\
+  map fst (p_curs (final 2 3 7 tour)) = [109%N; 7%N; 6%N] /\
+  act_get (p_act (final 2 3 7 tour)) 1 = AHold 7 /\
+  map (fun c => c_rels (p_cur (final 2 3 7 tour) c)) (seq 0 8) = [1; 1; 1; 1; 1; 0; 0; 0] /\
+  nth 9 (snd (fst (run (init 2 3 7) tour))) RNone = RRefused.
+Proof. vm_compute. repeat split; reflexivity. Qed.
+
+(* Next() returns prev: after an element is removed the sweep skips its neighbour. Three idle cursors, the two
+   older ones expired: the first pass removes the oldest, skips the second (still cached although expired) and
+   stops at the fresh one; the next pass removes it. Nothing worse than a delay of one sweeper period. *)
+Example C15_sweep_skips_neighbour :
+  let ops := [OLookup 0 1 true 0 (QParts [0%N]) PHead 100; OCreate 0; OInsert 0; ORelease 0;
+              OLookup 0 2 true 0 (QParts [0%N]) PHead 101; OCreate 0; OInsert 0; ORelease 0; OTick 4;
+              OLookup 0 3 true 0 (QParts [0%N]) PHead 102; OCreate 0; OInsert 0; ORelease 0] in
+  disciplined (init 10 3 7) (ops ++ [OSweepTime; OSweepTime]) = true /\
+  cached_ids (final 10 3 7 ops) = [1%N; 2%N; 3%N] /\
+  cached_ids (final 10 3 7 (ops ++ [OSweepTime])) = [2%N; 3%N] /\
+  cached_ids (final 10 3 7 (ops ++ [OSweepTime; OSweepTime])) = [3%N].
+Proof. vm_compute. repeat split; reflexivity. Qed.
